@@ -14,8 +14,13 @@ TRogue == /\ l <= Len(TraceLog) /\ Ev.e = "Rogue" /\ l' = l + 1
                  ELSE IF Ev.mutual THEN ((Ev.srvrc = 1) <=> (Ev.cCert /\ Ev.cOK /\ Ev.cPoss)) ELSE Ev.srvrc = 1)
           /\ Chk((Ev.srvrc # 1) => ~Ev.peerdone)             \* the peer never sees a server Finished for a handshake the server refused
           /\ Chk(Ev.srvrc = 1 => Ev.delivered)               \* and after a completed one the application data arrives
+(* the library client against a server that is not the library: it completes only if the chain validates (sOK), the server proved      *)
+(* possession of the certified key over this handshake (sPoss) and the message sequence is the protocol's                              *)
+TRogueS == /\ l <= Len(TraceLog) /\ Ev.e = "RogueS" /\ l' = l + 1
+           /\ Chk((Ev.clirc = 1) <=> (Ev.sOK /\ Ev.sPoss /\ Ev.wellformed))
+           /\ Chk(Ev.clirc = 1 => Ev.delivered)
 TReset == l <= Len(TraceLog) /\ Ev.e = "Reset" /\ l' = l + 1
-Next == TRogue \/ TReset
+Next == TRogue \/ TRogueS \/ TReset
 Spec == Init /\ [][Next]_l
 Accepted == LET d == TLCGet("stats").diameter IN IF d - 1 = Len(TraceLog) THEN TRUE ELSE PrintT(<<"REJECTED", d, TraceLog[d].e>>) /\ FALSE
 =============================================================================
